@@ -82,6 +82,8 @@ func (p c14Pod) build(name string) *v1.Pod {
 		pod.OwnerReferences = []metav1.OwnerReference{{Kind: "DaemonSet", Name: "d"}}
 	case "both":
 		pod.OwnerReferences = []metav1.OwnerReference{{Kind: "ReplicaSet", Name: "r"}, {Kind: "DaemonSet", Name: "d"}}
+	case "both-rev":
+		pod.OwnerReferences = []metav1.OwnerReference{{Kind: "DaemonSet", Name: "d"}, {Kind: "ReplicaSet", Name: "r"}}
 	}
 	switch p.Static {
 	case "file":
@@ -94,7 +96,7 @@ func (p c14Pod) build(name string) *v1.Pod {
 
 // oracleLabel: the predicate of the statement for a labelled group.
 func (p c14Pod) oracleLabel() bool {
-	if p.Owner == "ds" || p.Owner == "both" {
+	if p.Owner == "ds" || p.Owner == "both" || p.Owner == "both-rev" {
 		return false
 	}
 	if p.Selector == "keyval" || p.Selector == "keyvalextra" {
@@ -119,7 +121,7 @@ func (p c14Pod) oracleLabel() bool {
 // oracleDefault: 1 = counts, 0 = does not, -1 = the statement does not settle it (affinity
 // sub-structures present but holding no rule).
 func (p c14Pod) oracleDefault() int {
-	if p.Owner == "ds" || p.Owner == "both" || p.Static == "file" {
+	if p.Owner == "ds" || p.Owner == "both" || p.Owner == "both-rev" || p.Static == "file" {
 		return 0
 	}
 	if p.Selector != "nil" && p.Selector != "empty" {
@@ -197,12 +199,14 @@ func c14Grid(t *testing.T, tier string, shard, shards int, c *h.Collector) {
 	w := sim.NewWorld()
 	var expectLabel, expectDefault []string
 	maybeDefault := map[string]bool{}
+	var shapes []c14Pod
+	var podNames []string
 	for ai, a := range affs {
 		if ai%shards != shard {
 			continue
 		}
 		for _, selr := range []string{"nil", "empty", "otherkey", "keyother", "keyval", "keyvalextra"} {
-			for _, own := range []string{"none", "rs", "ds", "both"} {
+			for _, own := range []string{"none", "rs", "ds", "both", "both-rev"} {
 				for _, st := range []string{"none", "file", "api"} {
 					idx++
 					p := a
@@ -229,6 +233,8 @@ func c14Grid(t *testing.T, tier string, shard, shards int, c *h.Collector) {
 						maybeDefault[name] = true
 					}
 					w.ViewPods = append(w.ViewPods, pod)
+					shapes = append(shapes, p)
+					podNames = append(podNames, name)
 					c.Nontrivial(fmt.Sprintf("%d/%s/%s/%s", ai, selr, own, st))
 					if len(c.R.Samples) < 2 && want && p.Affinity == "required" {
 						c.R.Samples = append(c.R.Samples, p)
@@ -284,6 +290,41 @@ func c14Grid(t *testing.T, tier string, shard, shards int, c *h.Collector) {
 	if fmt.Sprint(dn) != fmt.Sprint(expectDefault) {
 		report("C14/lister-default-pods", fmt.Sprintf("default pod lister returned %d settled pods, statement selects %d", len(dn), len(expectDefault)), nil)
 	}
+	// second scan: every pod was deleted and re-created under the same name with another shape (each
+	// name now carries its neighbour's shape); attribution must follow the pod as listed now
+	if len(shapes) > 1 {
+		var exp2Label, exp2Default []string
+		maybe2 := map[string]bool{}
+		w.ViewPods = w.ViewPods[:0]
+		for i, name := range podNames {
+			p := shapes[(i+1)%len(shapes)]
+			w.ViewPods = append(w.ViewPods, p.build(name))
+			if p.oracleLabel() {
+				exp2Label = append(exp2Label, name)
+			}
+			switch p.oracleDefault() {
+			case 1:
+				exp2Default = append(exp2Default, name)
+			case -1:
+				maybe2[name] = true
+			}
+		}
+		c.R.Evaluations++
+		gp2, _ := lg.Pods.List()
+		if fmt.Sprint(names(gp2)) != fmt.Sprint(exp2Label) {
+			report("C14/lister-label-pods-second-list", fmt.Sprintf("after the pods were re-created under the same names with other shapes the filtered pod lister returned %d pods, the statement selects %d", len(gp2), len(exp2Label)), nil)
+		}
+		dp2, _ := ld.Pods.List()
+		var dn2 []string
+		for _, n := range names(dp2) {
+			if !maybe2[n] {
+				dn2 = append(dn2, n)
+			}
+		}
+		if fmt.Sprint(dn2) != fmt.Sprint(exp2Default) {
+			report("C14/lister-default-pods-second-list", fmt.Sprintf("after the pods were re-created under the same names with other shapes the default pod lister returned %d settled pods, the statement selects %d", len(dn2), len(exp2Default)), nil)
+		}
+	}
 	for _, l := range []*controller.NodeGroupLister{lg, ld} {
 		ns, _ := l.Nodes.List()
 		var nn []string
@@ -300,8 +341,8 @@ func init() {
 	register(&Check{
 		ID:    "C14",
 		Level: "exploration",
-		Rule: "every pod shape in the universe: node selector {nil, empty, other key, key->other, key->value, key->value+extra} x affinity {nil, empty, node affinity without required terms, preferred only, match-fields only, pod affinity, pod anti-affinity, required with zero terms, one term of 0..2 expressions, two terms of 0..1 expressions; expressions over key {group key, other} x operator {In, NotIn, Exists, DoesNotExist, Gt} x values {[], [value], [other], [other,value]}} x owners {none, ReplicaSet, DaemonSet, both} x static annotation {none, file, api}; 7 node label maps; " +
-			"through the real filter constructors and again through the filtered listers, compared with the predicate of the statement; non-trivial = every shape; distinct by construction",
+		Rule: "every pod shape in the universe: node selector {nil, empty, other key, key->other, key->value, key->value+extra} x affinity {nil, empty, node affinity without required terms, preferred only, match-fields only, pod affinity, pod anti-affinity, required with zero terms, one term of 0..2 expressions, two terms of 0..1 expressions; expressions over key {group key, other} x operator {In, NotIn, Exists, DoesNotExist, Gt} x values {[], [value], [other], [other,value]}} x owners {none, ReplicaSet, DaemonSet, both in either order} x static annotation {none, file, api}; 7 node label maps; " +
+			"through the real filter constructors and again through the filtered listers (two consecutive List calls, the pods re-created under the same names with other shapes in between), compared with the predicate of the statement; non-trivial = every shape; distinct by construction",
 		Grid:        c14Grid,
 		Assumptions: append([]string{"default group: shapes whose affinity sub-structures are present but hold no rule are accepted with either answer (the statement does not settle them)"}, commonAssumptions...),
 	})
